@@ -11,9 +11,9 @@ CHECKS = {
 }
 
 CHECKS["C01"] = {
-    "text": "Proof of the mechanism (Verus, real code extracted each run): GroupingContainer::{insert,get,begin_group,end_group} equal a stack-of-snapshots model for every history and depth (representation invariant proved preserved); update_save_stack: Local keeps the first overwritten value of the innermost level, Global purges the variable from EVERY level, other types' slots framed; command::Map opens/closes a group in BOTH its containers (control sequences and active characters) and routes inserts; prefix::Component::read_and_reset_global consumes the \\global flag exactly once and honours \\globaldefs.",
+    "text": "Proof of the mechanism (Verus, real code extracted each run): GroupingContainer::{insert,get,begin_group,end_group} equal a stack-of-snapshots model for every history and depth (representation invariant proved preserved); update_save_stack: Local keeps the first overwritten value of the innermost level, Global purges the variable from EVERY level, other types' slots framed; command::Map opens/closes a group in BOTH its containers (control sequences and active characters) and routes inserts; VM::begin_group / VM::end_group keep the command map, the variable save stack and the font save stack in lockstep for every history (so the two unwrap()s on the popped stacks cannot fail); prefix::Component::read_and_reset_global consumes the \\global flag exactly once and honours \\globaldefs.",
     "design_ref": "DESIGN.md §5 C01",
-    "note": "Not verified: VM::run_impl dispatch and VM::begin_group/end_group glue, the font save stack, SaveStackMap::restore, Vec backing container insert/get_mut (get/remove are proved), the macro-generated map_getter closures (assumed to be field lenses). Trusted: vstd HashMap model, HashMap::get_mut delegation, consuming HashMap iteration modelled as take-any-until-empty. A bounded driver (real VM + stdlib vs a snapshot model over group histories) stands in for the unverified glue and is labelled bounded.",
+    "note": "Not verified: VM::run_impl dispatch, TypedVariable::set and SaveStackMap::restore (they call setters through function-pointer fields, which Verus rejects), Vec backing container insert/get_mut (get/remove are proved), the macro-generated map_getter closures (assumed to be field lenses). Trusted: vstd HashMap model, HashMap::get_mut delegation, consuming HashMap iteration modelled as take-any-until-empty. A bounded driver (real VM + stdlib vs a snapshot model over group histories) stands in for the unverified glue and is labelled bounded.",
     "technique": "contract-based deductive verification (Verus: data-structure invariant + abstract model view, loop invariants, closure lens contract)",
 }
 CHECKS["C20"] = {
